@@ -6,11 +6,19 @@
 #include <sys/types.h>
 
 struct fs_ghost fs;
+#ifdef WITH_WRITER
+FILE *wr_fopen(const char *path, const char *mode);
+int wr_fclose(FILE *f);
+int wr_is_handle(FILE *f);
+#endif
 static char fs_handle;
 
 FILE *fopen(const char *path, const char *mode)
 {
   __CPROVER_precondition(path != NULL && mode != NULL, "fopen: arguments not NULL");
+#ifdef WITH_WRITER
+  if (mode[0] == 'w') return wr_fopen(path, mode);
+#endif
   fs.fopen_calls++;
   fs.fopen_path = path;
   if (fs.fopen_fails)
@@ -21,6 +29,9 @@ FILE *fopen(const char *path, const char *mode)
 
 int fclose(FILE *f)
 {
+#ifdef WITH_WRITER
+  if (wr_is_handle(f)) return wr_fclose(f);
+#endif
   __CPROVER_precondition(f == (FILE *)&fs_handle && fs.open_now > 0, "fclose: open handle");
   fs.fclose_calls++;
   fs.open_now--;
